@@ -689,6 +689,12 @@ class Analyzer:
                     if need is None and nv.get('k') == 'ref' and pn[0] == 'cur' and pn[2] == 0 and (('cnt', pn[1], 0), nv['d']) in st.acc:
                         ok = True
                         need = nv['n']
+                    elif need is None and nv.get('k') == 'ref' and pn[0] == 'cur' and pn[2] == 0:
+                        # a count defined once as <checked count> - k, k >= 0: fewer bytes than were shown to be readable
+                        base = self._count_minus(nv['d'])
+                        if base is not None and (('cnt', pn[1], 0), base[0]) in st.acc:
+                            ok = True
+                            need = '%s (= %s - %d)' % (nv['n'], base[2], base[1])
                     self.site('BND1' if pn[0] == 'cur' else 'BND2', call,
                               '%s reads %s byte(s) of the input at %s' % (cn, need, expr_str(strip_casts(args[j]))[:40]), ok,
                               'proved avail >= %s' % (av[0] if av is not None and av[0] > NEG else 'nothing'),
@@ -856,6 +862,37 @@ class Analyzer:
             st.ptr[key] = iv2
             self.tracked_ptrs.add(key)
         return True
+
+    def _count_minus(self, d):
+        """(decl of v, k, name of v) when the local d has the single definition v - k with a constant k >= 0, v is never
+        reassigned, and v cannot be smaller than k (k == 0, or v is a parameter that every call site gives a constant >= k):
+        d then asks for fewer bytes than v, which was shown to be readable."""
+        fn = self.fn
+        defs = [x['init'] for x in fn.locals() if x['d'] == d and 'init' in x]
+        asg = [a for a in fn.nodes() if a.get('k') == 'bin' and a.get('op') in ASSIGN_OPS and strip_casts(a['l']).get('k') == 'ref' and
+               strip_casts(a['l'])['d'] == d]
+        if len(defs) + len(asg) != 1:
+            return None
+        r = strip_casts(defs[0] if defs else asg[0]['r'])
+        if asg and asg[0]['op'] != '=':
+            return None
+        if r.get('k') == 'bin' and r['op'] == '-':
+            k = const_val(r['r'])
+            v = strip_casts(r['l'])
+            if k is not None and k >= 0 and v.get('k') == 'ref' and v.get('dk') in ('param', 'local'):
+                stores = [a for a in fn.nodes() if a.get('k') == 'bin' and a.get('op') in ASSIGN_OPS and strip_casts(a['l']).get('k') == 'ref' and
+                          strip_casts(a['l'])['d'] == v['d']]
+                if stores:
+                    return None
+                if k == 0:
+                    return (v['d'], k, v['n'])
+                if v.get('dk') == 'param':
+                    pi = [i for i, p in enumerate(fn.params) if p['d'] == v['d']]
+                    sites = [c for g in self.u.function_list for c in g.calls() if callee_name(c) == fn.name]
+                    if pi and sites and all(pi[0] < len(c['args']) and const_val(c['args'][pi[0]]) is not None and
+                                            const_val(c['args'][pi[0]]) >= k for c in sites):
+                        return (v['d'], k, v['n'])
+        return None
 
     def refine_rel(self, L, op, Rr, st):
         a, b = self.side(L, st), self.side(Rr, st)
